@@ -166,23 +166,45 @@ func runC14(r *Report, tier string) {
 			if mp.key != -2 && mp.key != -3 {
 				continue
 			}
-			// padded values only (a padding helper is inlined)
-			mp.val = P.expandOuter(mp.val)
-			if mp.val.Op != "append" {
+			// padded values only: computed values, not the stored coordinate itself
+			var raw ssa.Value = mp.instr.Value
+			if mi, ok := raw.(*ssa.MakeInterface); ok {
+				raw = mi.X
+			}
+			switch raw.(type) {
+			case *ssa.Call, *ssa.Extract, *ssa.MakeSlice:
+			default:
 				continue
 			}
 			idx := map[int64]string{-2: "1", -3: "2"}[mp.key]
 			V := "res<" + idx + ">(" + EC2 + ")"
-			o := r.ob("R14.3", fmt.Sprintf("Key.MarshalCBOR:pad:%d", mp.key), enc, mp.instr, "padded coordinate is make(size-len(v), size) ++ v for the coordinate of this label, under 0 < len(v) < size")
-			_, okV := unify(mustPat("append(makeslice<[]byte>(binop<->("+SIZE+", len("+V+")), "+SIZE+"), "+V+")"), mp.val, bindings{})
-			fs := P.factsBefore(mp.instr)
-			miss, _ := fs.firstMissing([]factPat{
-				fp("binop<==>(*$0.Type, 2)"),
-				fp("binop<<>(0, " + SIZE + ")"),
-				fp("binop<<>(0, len(" + V + "))"),
-				fp("binop<<>(len(" + V + "), " + SIZE + ")"),
-			}, nil)
-			o.check(okV && miss == "", "value and guards match", fmt.Sprintf("value is the padding of this label's coordinate: %v (%s); missing guard: %s", okV, truncate(mp.val.String(), 160), miss))
+			o := r.ob("R14.3", fmt.Sprintf("Key.MarshalCBOR:pad:%d", mp.key), enc, mp.instr, "padded coordinate is zeros(size-len(v)) ++ v for the coordinate of this label, under 0 < len(v) < size")
+			pi, why := P.leftPad(enc, raw, 0)
+			if pi == nil {
+				o.fail("value is not the left-padding of this label's coordinate: " + why)
+				seen[mp.key] = true
+				continue
+			}
+			_, okS := unify(mustPat(SIZE), pi.size, bindings{})
+			_, okV := unify(mustPat(V), pi.coord, bindings{})
+			fs := P.factsBefore(mp.instr).clone()
+			gated := pi.gated == nil || fs.has(Fact{pi.gated, true})
+			if gated {
+				for _, f := range pi.guards {
+					fs.add(f)
+				}
+			}
+			miss, _ := fs.firstMissing([]factPat{fp("binop<==>(*$0.Type, 2)")}, nil)
+			if miss == "" && !P.proveGE0(tSub(tLen(pi.coord), tInt(1)), fs) {
+				miss = "0 < len(v)"
+			}
+			if miss == "" && !P.proveGE0(tSub(tSub(pi.size, tLen(pi.coord)), tInt(1)), fs) {
+				miss = "len(v) < size"
+			}
+			if !gated {
+				miss = "the helper's ok result is not tested before the value is stored"
+			}
+			o.check(okS && okV && miss == "", "value and guards match", fmt.Sprintf("size is curveSize(own curve): %v (%s); coordinate is this label's: %v (%s); missing guard: %s", okS, truncate(pi.size.String(), 80), okV, truncate(pi.coord.String(), 80), miss))
 			seen[mp.key] = true
 		}
 		r.ob("R14.3", "Key.MarshalCBOR:both-coordinates", enc, nil, "x and y both have a padding arm").check(seen[-2] && seen[-3], "x and y", fmt.Sprintf("padding arm for x: %v, for y: %v", seen[-2], seen[-3]))
